@@ -406,6 +406,8 @@ def _cls(c):
     if t[0] == 'address':
         if unhx(t[6]) and hexlike(unhx(t[6])):
             return 'hash_ascii_hex'
+        if t[5] != '-' and unhx(t[5]) and hexlike(unhx(t[5])):
+            return 'hash_ascii_hex'     # Address(data=<bytes>) goes through the same to_bytes() (white space only -> b'')
         if t[2] == 'p2tr' and t[3] == 'bech32' and not unhx(t[6]):
             return 'p2tr_from_key_sha256'
     if t[0] == 'stdaddr' and t[2] == 'p2tr' and t[3] == 'bech32':
